@@ -59,7 +59,15 @@ def mk_slave(kind):
 
 
 def dump(slave):
-    return tuple(tuple(int(v) for v in slave.store[k].values) for k in "dcih")
+    """the four tables 'd','c','i','h' of a slave context; a sparse block dumps as sorted (address, value) pairs"""
+    out = []
+    for k in "dcih":
+        v = slave.store[k].values
+        if isinstance(v, dict):
+            out.append(tuple(sorted((int(a), int(x)) for a, x in v.items())))
+        else:
+            out.append(tuple(int(x) for x in v))
+    return tuple(out)
 
 
 def mk_context(single, hosted):
@@ -454,14 +462,15 @@ def _run_tw_udp(rec, context, framer, cfg, reads, direct):
                 rec.escaped.append(type(e).__name__)
 
 
-def run(frontend, framer, cfg, hosted, reads, direct=False, edits=None):
+def run(frontend, framer, cfg, hosted, reads, direct=False, edits=None, make_context=None):
     """cfg: {"single","bcast","ignore"}; hosted: [(uid, kind)];
     reads: stream: [bytes]; datagram: [(bytes, sender_index)];
     edits: [{"before_read": i, "op": "del"|"set", "uid": u, "kind": k}] applied to the live ModbusServerContext
     (`del context[u]` / `context[u] = <new slave context>`) just before read i is handed to the front-end"""
     from pymodbus.server import sync
     reset_mcb()
-    context, units = mk_context(cfg["single"], hosted)
+    # make_context: () -> (ModbusServerContext, [(uid, slave context)]) for checks that build the datastore themselves
+    context, units = make_context() if make_context else mk_context(cfg["single"], hosted)
     rec = Rec(units)
     rec.context = context
     rec.edits = list(edits or [])
